@@ -89,7 +89,7 @@ async def scenario(loop, plan, r):
         ezsp.start_ezsp()
         app._ezsp = ezsp
         app._watchdog_failures = 0
-        app._watchdog_feed_counter = 0
+        app._watchdog_feed_counter = plan.get("counter0", 0)
         between = plan.get("between") or []
         if between:
             import zigpy.types as zt
@@ -116,7 +116,7 @@ async def scenario(loop, plan, r):
                 await ezsp.getNodeId()
             await asyncio.sleep(0.01)
         consecutive = 0
-        ordinal = 0
+        ordinal = plan.get("counter0", 0)  # feeds since start: the watchdog has been running for a while
         saw_run = saw_recover = False
         for k, oc in enumerate(seq):
             if k < len(between) and between[k]:
@@ -131,10 +131,18 @@ async def scenario(loop, plan, r):
                 # fails with an EZSP error - a failed feed like any other
                 sim.mode = "ok"
                 ezsp.stop_ezsp()
+            if oc.startswith("timeout:switch"):
+                # the keep-alive is in flight (never answered) when the protocol handler is replaced - what a reset or a
+                # version negotiation does: for the watchdog it is an unanswered keep-alive like any other
+                sim.mode = "timeout@nop" if v == 4 else "timeout@counters"
+                loop.call_later(1.0, ezsp._switch_protocol_version, v)
             try:
                 await app._watchdog_feed()
             except (asyncio.TimeoutError, Exception) as ex:
                 raised = ex
+            except BaseException as ex:
+                r.bad(f"C19:unexpected-exception:{type(ex).__name__}", f"feed {k + 1} of {plan}: {ex!r}")
+                return
             if stopped:
                 ezsp.start_ezsp()
             failure = not oc.startswith("ok")
@@ -168,7 +176,7 @@ async def scenario(loop, plan, r):
             else:
                 ordinal += 1
                 first = "readAndClearCounters" if ordinal % period == 0 else "readCounters"
-                want = [first] if oc.endswith("@counters") else [first, "getValue"]
+                want = [first] if (oc.endswith("@counters") or oc.startswith("timeout:switch")) else [first, "getValue"]
                 if first == "readAndClearCounters":
                     r.cls("clear-period-boundary")
             if cmds != want:
@@ -217,9 +225,11 @@ def long_plans(draw):
     seq = []
     while len(seq) < n:
         run = draw(st.integers(0, 7))
-        seq += [draw(st.sampled_from(outs[1:] + (["err:stopped"] if v == 4 else []))) for _ in range(run)]
+        seq += [draw(st.sampled_from(outs[1:] + ["timeout:switch"] + (["err:stopped"] if v == 4 else []))) for _ in range(run)]
         seq += ["ok"] * draw(st.integers(1, 40 if period == 180 else 3))
     plan = {"v": v, "period": period, "seq": seq[:n]}
+    if period == 180 and draw(st.integers(0, 3)) == 0:
+        plan["counter0"] = draw(st.sampled_from([2 ** 16 - 100, 2 ** 32 - 100, 179, 180 * 364]))
     if draw(st.booleans()):
         plan["between"] = draw(st.lists(st.sampled_from([None, None, None, "msg", "sent", "status", "cmd"]), min_size=n, max_size=n))
     return plan
@@ -249,6 +259,21 @@ def _worker_stopped(ctx, job):
         ctx.check(plan, check(plan), sample=(first == 2 and rest[:2] == ("err:stopped", "ok")))
 
 
+def _worker_misc(ctx, job):
+    """(a) runs of unanswered keep-alives some of which are in flight while the protocol handler is replaced;
+    (b) the read-and-clear period across the 16-, 31- and 32-bit boundaries of the feed counter."""
+    v, what = job
+    fail = "timeout" if v == 4 else "timeout@counters"
+    if what == "switch":
+        for pos in itertools.product([fail, "timeout:switch"], repeat=6):
+            plan = {"v": v, "seq": ["ok"] + list(pos) + ["ok", "timeout:switch", "ok"]}
+            ctx.check(plan, check(plan), sample=(pos[2] == "timeout:switch" and pos[0] == fail))
+    elif v != 4:
+        for c0 in (2 ** 16 - 200, 2 ** 31 - 200, 2 ** 32 - 200, 180 * 1000 - 5):
+            plan = {"v": v, "counter0": c0, "seq": ["ok"] * 420}
+            ctx.check(plan, check(plan), sample=(c0 == 2 ** 16 - 200))
+
+
 def _worker_long(ctx, n):
     ctx.search(long_plans(), check, max_examples=n)
 
@@ -266,4 +291,5 @@ def run(ctx):
     # only protocol version 4 keeps alive with a plain command (nop), which the stopped EZSP object refuses at once; the
     # counter read of later versions is a handler-level helper that does not pass through that gate (not judged here)
     ctx.parallel(_worker_stopped, [(4, f) for f in range(3)])
+    ctx.parallel(_worker_misc, [(v, what) for v in (4, 8, 14) for what in ("switch", "counter")])
     ctx.parallel(_worker_long, [12] * 16 if quick else [300] * 16)
